@@ -41,6 +41,15 @@ pub type EntityCommands<'a> = &'a mut EntityCommandsInner;
 impl EntityCommandsInner {
     pub uninterp spec fn entity(&self) -> Entity;
     pub uninterp spec fn log(&self) -> Seq<Queued>;
+    pub uninterp spec fn alive(&self) -> Set<Entity>;
+    // EntityCommands::id(): the entity this handle is focused on
+    #[verifier::external_body]
+    pub fn id(&self) -> (r: Entity) ensures r == self.entity() { unimplemented!() }
+    // EntityCommands::commands(): the underlying Commands handle (same queue)
+    #[verifier::external_body]
+    pub fn commands(&mut self) -> (r: Commands<'_, '_>)
+        ensures r.log() == old(self).log(), r.alive() == old(self).alive(), final(self).log() == final(r).log(), final(self).entity() == old(self).entity(), final(self).alive() == old(self).alive(),
+    { unimplemented!() }
     // EntityCommands::remove::<B>(): queues the removal of component B from this entity (B = the reactor's local data here)
     #[verifier::external_body]
     pub fn remove<B>(&mut self) -> (r: &mut Self)
@@ -153,10 +162,15 @@ impl EntityReactors {
     #[verifier::external_body]
     pub fn iter_reactors(&self) -> (r: RIter<'_>) ensures r.elems() == self.ids(), r.pos() == 0 { unimplemented!() }
 }
-#[verifier::external_body] #[verifier::accept_recursive_types(D)]
-pub struct Query<'w, 's, D> { _p: PhantomData<(&'w (), &'s (), D)> }
-impl<'w, 's, D> Query<'w, 's, D> {
+pub struct With<T>(pub PhantomData<T>);
+#[verifier::external_body] #[verifier::accept_recursive_types(D)] #[verifier::accept_recursive_types(F)]
+pub struct Query<'w, 's, D, F = ()> { _p: PhantomData<(&'w (), &'s (), D, F)> }
+impl<'w, 's, D, F> Query<'w, 's, D, F> {
     pub uninterp spec fn lists(&self) -> Map<Entity, EntityReactors>;
+    /// entities matched by the query (meaningful for filter queries)
+    pub uninterp spec fn matched(&self) -> Set<Entity>;
+    #[verifier::external_body]
+    pub fn contains(&self, e: Entity) -> (b: bool) ensures b == self.matched().contains(e) { unimplemented!() }
     #[verifier::external_body]
     pub fn get(&self, e: Entity) -> (r: Result<&EntityReactors, QueryEntityError>)
         ensures r is Ok <==> self.lists().dom().contains(e), r is Ok ==> *r->Ok_0 == self.lists()[e] { unimplemented!() }
@@ -192,6 +206,20 @@ pub open spec fn cleanups<T: EntityWorldReactor>(id: SystemCommand, ents: Seq<En
 //@fn src/react/entity_world_reactor.rs impl EntityReactor system ret=r
 //@| ensures r == (if self.inner is Some { Some(self.inner->Some_0.sys_command) } else { None::<SystemCommand> }),
 //@endimpl
+
+// ---- ReactEntityCommandsExt::add_world_reactor (extensions.rs): queues ONE call of a system that does exactly `reactor.add(commands, this entity, data)`.
+// The method lives in `impl ReactEntityCommandsExt for EntityCommands<'a>` (Self = a reference alias here): emitted as a free function (rule 27);
+// its system closure is lifted (rule 28).  The method's obligation is the assertion at its end (Verus takes no `ensures` on trait-impl methods anyway).
+//@fn src/react/extensions.rs impl ReactEntityCommandsExt for EntityCommands add_world_reactor
+//@| ensures final(verif_self).log() == old(verif_self).log().push(Queued::Syscall { sys: sys_id(add_world_reactor_sys::<T>), input: enc((old(verif_self).entity(), data)) }),
+//@|         *final(*final(verif_self)) == *final(*old(verif_self)),
+//@selfrename EntityCommands<'_>
+//@liftsys verif_self.commands().syscall | add_world_reactor_sys | <T: EntityWorldReactor> | ::<T>
+//@lift| ensures ({ let (id, data) = verif_in.0; let r = (reactor.inner is Some && old(c).alive().contains(id));
+//@lift|     &&& (r ==> final(c).log() == old(c).log()
+//@lift|             .push(Queued::TryInsert { entity: id, bundle: enc(EntityWorldLocal::<T> { data: data }) })
+//@lift|             .push(Queued::With { triggers: enc(<T::Triggers as EntityTriggerBundle>::bundle_of(id)), sys: reactor.inner->Some_0.sys_command, mode: ReactorMode::Persistent }))
+//@lift|     &&& (!r ==> final(c).log() == old(c).log()) }),
 
 } // verus!
 fn main() {}
